@@ -263,6 +263,10 @@ func cmdFunc(args []string) {
 				bad++
 				continue
 			}
+			for _, d := range rep.Dropped {
+				fmt.Printf("  DROPPED loop clause at %s: it does not bind to the code\n", d)
+				bad++
+			}
 			tmp, _ := os.MkdirTemp("", "gvc")
 			var jobs []*solveJob
 			for i, o := range rep.Obls {
@@ -454,6 +458,10 @@ func cmdAll(args []string) {
 			fmt.Printf("OUTSIDE %s: %s\n", shortFuncKey(k), rep.Err)
 			bad++
 			continue
+		}
+		for _, d := range rep.Dropped {
+			fmt.Printf("DROPPED %s: loop clause at %s does not bind to the code\n", shortFuncKey(k), d)
+			bad++
 		}
 		for i, o := range rep.Obls {
 			jobs = append(jobs, &solveJob{name: o.Name, text: rep.Texts[i], cover: o.Cover})
